@@ -144,7 +144,7 @@ def edit_list(items, tier):
 def inputs(tier):
     out = [dict(src='corpus', d=d) for d in corpus.windows(tier, k=5)[:: (1 if tier == 'thorough' else 3)]]
     out += [dict(src='corpus', d=d) for d in corpus.cutouts(tier, radius=8.0)[:: (2 if tier == 'thorough' else 5)]]
-    out += [dict(src='corpus', d=d) for d in corpus.pairs('quick', kinds_a=('ASP', 'HIS', 'N+', 'ACT'), kinds_b=('LYS', 'C-', 'CA', 'MAM', 'PYR', 'ASN'))]
+    out += [dict(src='corpus', d=d) for d in corpus.pairs('quick', kinds_a=('ASP', 'HIS', 'N+', 'ACT'), kinds_b=('LYS', 'C-', 'CA', 'MAM', 'PYR', 'ASN', 'MGU', 'AMI'))]
     out += [dict(src='corpus', d=d) for d in corpus.clusters('quick')[::8]]
     # multi-conformation inputs (options must keep their promise in every conformation)
     for lay in ([[' ', 'ASP'], ['B', 'ASPs']], [['A', 'ASP'], ['B', 'ALA']]):
